@@ -401,10 +401,11 @@ class RunMonitor:
         for l in w["links"]:
             if w["comps"][l["dst"]] is not comp:
                 continue
-            if any(isinstance(a, TimeCachingAdapter) for a in l["adapters"]):
+            kinds = l.get("kinds") or [None] * len(l["adapters"])
+            if any((k in PUSH_BASED_KINDS) if k is not None else isinstance(a, TimeCachingAdapter)
+                   for a, k in zip(l["adapters"], kinds)):
                 continue  # served from the adapter's buffer, the source is not asked now
             tr = t
-            kinds = l.get("kinds") or [None] * len(l["adapters"])
             for ada, kind in zip(reversed(l["adapters"]), reversed(kinds)):
                 if kind is not None and (kind == "dfix" or kind.startswith("dpull")):
                     tr = spec_with_delay(ada, kind, tr)
